@@ -104,3 +104,349 @@ def rf21(run):
         if not ok:
             run.violation(rule, tu.func('out_type'), 'C type of %s' % t, 'out_type maps register type %s to `%s`' % (t, ctype.get(t)),
                           line=tu.func('out_type').line)
+
+
+# ---------------------------------------------------------------------------------------------
+# RF57: signed and unsigned overflow flags of the C translation
+# ---------------------------------------------------------------------------------------------
+
+def rf57(run):
+    import re
+    import rf_sig
+    rule = 'RF57'
+    run.rule(rule, 'mir2c: ADDO/SUBO[S] set a signed flag (builtin over the signed type of the opcode\'s width) and an unsigned flag '
+                   '(builtin over the unsigned type), MULO[S] set the signed flag, UMULO[S] the unsigned one; BO/BNO test the signed '
+                   'flag, UBO/UBNO the unsigned flag, with the polarity of the opcode; the two flags are different C objects; the '
+                   'statement that writes the result is the last one (the result may be a source)')
+    tu = run.tu('mir2c')
+    f, regs, out, handled = rf_sig.mir2c_sigs(tu)
+    run.functions_analysed.add(('mir2c', 'out_insn'))
+    n = 0
+    signed_flags, unsigned_flags = set(), set()
+    prod = {}
+    for nm, want_s, want_u, w in (('MIR_ADDO', True, True, 64), ('MIR_SUBO', True, True, 64), ('MIR_ADDOS', True, True, 32),
+                                  ('MIR_SUBOS', True, True, 32), ('MIR_MULO', True, False, 64), ('MIR_MULOS', True, False, 32),
+                                  ('MIR_UMULO', False, True, 64), ('MIR_UMULOS', False, True, 32)):
+        sg = out.get(nm)
+        if sg is None:
+            raise F.AnalysisBroken('mir2c out_insn: no case for %s' % nm)
+        fl = getattr(sg, 'flags', None)
+        if fl is None:
+            raise F.AnalysisBroken('mir2c out_insn: %s template not recognised (%s)' % (nm, sg.note))
+        s_ = sorted(k for k, t in fl.items() if t == ('i', w, True))
+        u_ = sorted(k for k, t in fl.items() if t == ('i', w, False))
+        other = sorted(k for k, t in fl.items() if t not in (('i', w, True), ('i', w, False)))
+        n += 1
+        ok = bool(s_) == want_s and bool(u_) == want_u and not other
+        run.ob(rule, (nm,), ok, {'opcode': nm, 'signed flag': s_, 'unsigned flag': u_, 'template': sg.note})
+        if not ok:
+            run.violation(rule, f, '%s overflow flags' % nm, 'the C template of %s sets signed flag(s) %s and unsigned flag(s) %s%s; '
+                          'the opcode defines %s: a branch on the missing flag tests a stale or wrong value'
+                          % (nm, s_, u_, (' and flags of another width %s' % other) if other else '',
+                             ' and '.join(x for x, y in (('signed overflow', want_s), ('unsigned overflow', want_u)) if y)),
+                          line=sg.node['l'] if sg.node else None)
+        signed_flags.update(s_)
+        unsigned_flags.update(u_)
+        prod[nm] = fl
+    n += 1
+    ok = len(signed_flags) == 1 and len(unsigned_flags) == 1 and not (signed_flags & unsigned_flags)
+    run.ob(rule, ('flags',), ok, {'signed': sorted(signed_flags), 'unsigned': sorted(unsigned_flags)})
+    if not ok:
+        run.violation(rule, f, 'flag objects', 'the producers use signed flag(s) %s and unsigned flag(s) %s: one signed and one '
+                      'distinct unsigned C object are required' % (sorted(signed_flags), sorted(unsigned_flags)))
+        return n
+    sf, uf = next(iter(signed_flags)), next(iter(unsigned_flags))
+    BR = re.compile(r'if \((?P<neg>!)?(?P<flag>\w+)\) goto \$0;')
+    for nm, flag, neg in (('MIR_BO', sf, False), ('MIR_BNO', sf, True), ('MIR_UBO', uf, False), ('MIR_UBNO', uf, True)):
+        sg = out.get(nm)
+        if sg is None:
+            raise F.AnalysisBroken('mir2c out_insn: no case for %s' % nm)
+        m = BR.fullmatch(getattr(sg, 'text', sg.note))
+        if m is None:
+            raise F.AnalysisBroken('mir2c out_insn: %s template not recognised (%s)' % (nm, sg.note))
+        n += 1
+        ok = m.group('flag') == flag and bool(m.group('neg')) == neg
+        run.ob(rule, (nm,), ok, {'opcode': nm, 'template': sg.note, 'expected flag': flag, 'negated': neg})
+        if not ok:
+            run.violation(rule, f, '%s tested flag' % nm, '%s is translated to `%s`; the opcode branches when the %s overflow flag (%s) is %s'
+                          % (nm, sg.note, 'signed' if flag == sf else 'unsigned', flag, 'clear' if neg else 'set'),
+                          line=sg.node['l'] if sg.node else None)
+    return n
+
+
+# ---------------------------------------------------------------------------------------------
+# RF58: a reference operand is translated to the address of the item
+# ---------------------------------------------------------------------------------------------
+
+def rf58(run):
+    rule = 'RF58'
+    run.rule(rule, 'mir2c: the C objects standing for MIR items have different shapes (scalar for a one-element data item, array, struct '
+                   'for a section, function, `extern char []` for an import); the text printed for a MIR_OP_REF operand takes the '
+                   'address of the named object (`&name`), the only form that denotes the item\'s address for every shape')
+    tu = run.tu('mir2c')
+    f = tu.func('out_op')
+    run.functions_analysed.add(('mir2c', 'out_op'))
+    sws = R.find_switches(f, lambda c: c.endswith('.mode') or c.endswith('mode'))
+    if not sws:
+        raise F.AnalysisBroken('out_op: switch on the operand mode not found')
+    n = 0
+    for r in R.switch_regions(f, sws[0]):
+        if 'MIR_OP_REF' not in [c[0] for c in r['cases']]:
+            continue
+        lits = [x['s'] for x in R.region_nodes(r['stmts']) if x['k'] == 'StringLiteral' and '%s' in x['s']]
+        if len(lits) != 1:
+            raise F.AnalysisBroken('out_op: MIR_OP_REF case does not print one name')
+        n += 1
+        import re
+        ok = re.search(r'&\s*%s', lits[0]) is not None
+        run.ob(rule, ('MIR_OP_REF',), ok, {'format': lits[0]})
+        if not ok:
+            run.violation(rule, f, 'MIR_OP_REF text', 'a reference operand is printed as `%s`: for a one-element data item this is the '
+                          'value of the C object and for a section a struct, not the item address MIR defines' % lits[0],
+                          line=r['stmts'][0]['l'])
+    if n == 0:
+        raise F.AnalysisBroken('out_op: no MIR_OP_REF case')
+    return n
+
+
+# ---------------------------------------------------------------------------------------------
+# RF59 / RF60: declarations printed by out_item, by abstract execution over model modules
+# ---------------------------------------------------------------------------------------------
+
+class _Stop(Exception):
+    pass
+
+
+def _item_exec(tu, items, stop_at_decl=False):
+    """items: list of dicts (fields by member path, plus 'name': 0/1); ids are 1..n in module order"""
+    from lib import printexec as PE
+    heap = {}
+    for i, it in enumerate(items, 1):
+        d = dict(it)
+        d.setdefault('->addr', 0)
+        d.setdefault('->export_p', 0)
+        heap[i] = d
+
+    def arg_id(a, env, ex):
+        v = ex.val(a, env)
+        if not isinstance(v, int):
+            raise F.AnalysisBroken('item argument `%s` not evaluable' % F.src(a)[:40])
+        return v
+
+    def item_name(args, env, ex):
+        i = arg_id(args[1], env, ex)
+        if i not in heap:
+            raise F.AnalysisBroken('MIR_item_name of a non-item')
+        return heap[i]['name']
+
+    def dnext(args, env, ex):
+        i = arg_id(args[0], env, ex)
+        return i + 1 if i + 1 in heap else 0
+
+    def els(args, env, ex):
+        i = arg_id(args[2], env, ex)
+        nel = heap[i]['->u.data->nel']
+        return ', '.join(['9'] * nel)
+
+    def decl(args, env, ex):
+        if stop_at_decl:
+            ex.out.append('D')
+            raise _Stop()
+        return 'D'
+
+    ex = PE.PrintExec(tu, heap, {'MIR_item_name': item_name, 'DLIST_MIR_item_t_next': dnext},
+                      {'out_type': lambda a, e, x: 'T', '_MIR_output_data_item_els': els, 'out_func_decl': decl})
+    return ex, heap
+
+
+def _parse_decl(t):
+    """-> (static count, struct attr or None, members, initialisers or None) for one printed declaration; None if not well formed"""
+    import re
+    t = t.strip()
+    if not t.endswith(';'):
+        return None
+    t = t[:-1].strip()
+    ns = 0
+    while t.startswith('static '):
+        ns += 1
+        t = t[7:].lstrip()
+    decl, eq, init = t.partition('=')
+    decl, init = decl.strip(), init.strip()
+    attr, members = None, None
+    m = re.fullmatch(r'struct\s*(?P<attr>__attribute__\s*\(\(.*?\)\)\s*)?\{(?P<body>[^{}]*)\}\s*(?P<name>\w+)', decl)
+    if m:
+        attr = m.group('attr') or ''
+        body = m.group('body').strip()
+        if not body.endswith(';'):
+            return None
+        members = [x.strip() for x in body[:-1].split(';')]
+        if not all(re.fullmatch(r'[\w ]+?\*?\s*\w+(\[\w+\])?', x) for x in members):
+            return None
+    else:
+        if not re.fullmatch(r'[\w ]+?\*?\s*\w+(\[\w+\])?', decl):
+            return None
+        members = None
+    inits = None
+    if eq:
+        # split the initialiser at top-level commas
+        def top_split(s):
+            out, depth, cur = [], 0, ''
+            for ch in s:
+                if ch in '{(':
+                    depth += 1
+                elif ch in '})':
+                    depth -= 1
+                    if depth < 0:
+                        return None
+                if ch == ',' and depth == 0:
+                    out.append(cur.strip())
+                    cur = ''
+                else:
+                    cur += ch
+            if depth != 0:
+                return None
+            out.append(cur.strip())
+            return out
+
+        def well(s):
+            s = s.strip()
+            if s.startswith('{'):
+                if not s.endswith('}'):
+                    return False
+                parts = top_split(s[1:-1])
+                if parts is None:
+                    return False
+                if parts and parts[-1] == '':
+                    parts = parts[:-1]          # trailing comma
+                return bool(parts) and all(well(p) for p in parts)
+            return bool(s) and '{' not in s and '}' not in s and top_split(s) is not None and len(top_split(s)) == 1
+        if members is not None:
+            if not (init.startswith('{') and init.endswith('}')):
+                return None
+            parts = top_split(init[1:-1])
+            if parts is None or not all(well(p) for p in parts):
+                return None
+            inits = parts
+        else:
+            if not well(init):
+                return None
+            inits = [init]
+    return ns, attr, members, inits
+
+
+def rf59(run):
+    rule = 'RF59'
+    run.rule(rule, 'mir2c out_item, executed abstractly over model modules (single scalar / array / bss items and sections of named + '
+                   'anonymous data, bss and ref items): every named item or section prints exactly one well-formed C declaration with at '
+                   'most one `static`, a section prints one struct whose initialiser has one well-formed element per member, anonymous '
+                   'items print nothing on their own, and a section whose members differ in size is declared packed (MIR sections '
+                   'have no gaps)')
+    tu = run.tu('mir2c')
+    f = tu.func('out_item')
+    run.functions_analysed.add(('mir2c', 'out_item'))
+    it = dict(tu.enum('MIR_item_type_t'))
+    ty = dict(tu.enum('MIR_type_t'))
+    data = lambda name, nel, t='MIR_T_I64': {'->item_type': it['MIR_data_item'], 'name': name, '->u.data->nel': nel, '->u.data->el_type': ty[t]}
+    bss = lambda name, ln: {'->item_type': it['MIR_bss_item'], 'name': name, '->u.bss->len': ln}
+    ref = lambda name: {'->item_type': it['MIR_ref_data_item'], 'name': name, '->u.ref_data->disp': 8, '->u.ref_data->ref_item': 1}
+    func = lambda: {'->item_type': it['MIR_func_item'], 'name': 1}
+    scenarios = [
+        ('one scalar', [data(1, 1), func()], False),
+        ('one array', [data(1, 3), func()], False),
+        ('one bss', [bss(1, 8), func()], False),
+        ('two scalars in a section', [data(1, 1), data(0, 1), func()], False),
+        ('three scalars at the module end', [data(1, 1), data(0, 1), data(0, 1)], False),
+        ('scalar, bss, array, ref', [data(1, 1), bss(0, 3), data(0, 2, 'MIR_T_U8'), ref(0), func()], True),
+        ('bss section', [bss(1, 8), bss(0, 8), func()], False),
+        ('array then scalar then named scalar', [data(1, 2), data(0, 1), data(1, 1)], False),
+        ('bss first then data', [bss(1, 2), data(0, 1), func()], True),
+    ]
+    n = 0
+    for title, items, mixed in scenarios:
+        # sections of the scenario
+        sections, cur = [], None
+        for i, d in enumerate(items, 1):
+            if d['->item_type'] == it['MIR_func_item']:
+                cur = None
+                continue
+            if d['name']:
+                cur = [i]
+                sections.append(cur)
+            elif cur is not None:
+                cur.append(i)
+        for i, d in enumerate(items, 1):
+            if d['->item_type'] == it['MIR_func_item']:
+                continue
+            ex, heap = _item_exec(tu, items)
+            env = {'item': i}
+            try:
+                ex.run(f.body, env)
+            except _Stop:
+                pass
+            txt = ex.text()
+            n += 1
+            sec = next((s for s in sections if s[0] == i), None)
+            why = None
+            if sec is None:
+                if txt.strip():
+                    why = 'the anonymous item %d of `%s` prints `%s` on its own' % (i, title, txt.strip()[:60])
+            else:
+                p = _parse_decl(txt)
+                if p is None:
+                    why = 'the declaration printed for `%s` is not well formed: `%s`' % (title, ' '.join(txt.split())[:160])
+                else:
+                    ns, attr, members, inits = p
+                    has_data = any(items[j - 1]['->item_type'] != it['MIR_bss_item'] for j in sec)
+                    if ns > 1:
+                        why = '`static` printed %d times for `%s`' % (ns, title)
+                    elif len(sec) > 1 and (members is None or len(members) != len(sec)):
+                        why = 'section `%s` of %d items declares %s members' % (title, len(sec), 'no' if members is None else len(members))
+                    elif len(sec) == 1 and members is not None:
+                        why = 'single item `%s` declared as a struct' % title
+                    elif has_data and inits is None:
+                        why = '`%s` has initialised items but no initialiser is printed' % title
+                    elif inits is not None and members is not None and len(inits) != len(members):
+                        why = 'section `%s`: %d members but %d initialiser elements (`%s`)' % (title, len(members), len(inits),
+                                                                                             ' '.join(txt.split())[:120])
+                    elif mixed and len(sec) > 1 and 'packed' not in (attr or ''):
+                        why = ('section `%s` has members of different sizes and its struct is not packed: the C compiler inserts padding, '
+                               'MIR places the items without gaps, so offsets from the section start differ' % title)
+            run.ob(rule, (title, i), why is None, {'scenario': title, 'item': i, 'printed': ' '.join(txt.split())[:200]})
+            if why:
+                run.violation(rule, f, 'declaration of %s' % title, why)
+    return n
+
+
+def rf60(run):
+    rule = 'RF60'
+    run.rule(rule, 'mir2c out_item: the declaration printed for a forward of a function and the definition printed for that function '
+                   'carry the same linkage (`static` exactly when the function is not exported)')
+    tu = run.tu('mir2c')
+    f = tu.func('out_item')
+    it = dict(tu.enum('MIR_item_type_t'))
+    n = 0
+    for exported in (0, 1):
+        items = [{'->item_type': it['MIR_forward_item'], 'name': 1, '->ref_def': 2, '->ref_def->item_type': it['MIR_func_item'],
+                  '->ref_def->export_p': exported, '->ref_def->u.func': 7},
+                 {'->item_type': it['MIR_func_item'], 'name': 1, '->export_p': exported, '->u.func': 7}]
+        texts = []
+        for i in (1, 2):
+            ex, heap = _item_exec(tu, items, stop_at_decl=True)
+            try:
+                ex.run(f.body, {'item': i})
+            except _Stop:
+                pass
+            t = ex.text()
+            if not t.endswith('D'):
+                raise F.AnalysisBroken('out_item: function declaration not reached for the %s' % ('forward', 'definition')[i - 1])
+            texts.append(' '.join(t[:-1].split()))
+        n += 1
+        ok = texts[0] == texts[1] and (('static' in texts[1].split()) == (not exported))
+        run.ob(rule, ('exported' if exported else 'local',), ok, {'forward prefix': texts[0], 'definition prefix': texts[1]})
+        if not ok:
+            run.violation(rule, f, 'forward linkage (%s function)' % ('exported' if exported else 'non-exported'),
+                          'a forward of %s function is declared with `%s` and the function is defined with `%s`: %s'
+                          % ('an exported' if exported else 'a non-exported', texts[0], texts[1],
+                             'the C compiler rejects a static definition after a non-static declaration' if not exported
+                             else 'the exported function loses external linkage'))
+    return n
